@@ -9,6 +9,9 @@
 pub mod src;
 pub mod ranger_l;
 pub mod crypto;
+pub mod kernels;
+#[cfg(not(kani))]
+pub mod witness;
 
 /// re-export for the native witness programs (iroh-blobs is not a dependency of /verif/replay)
 pub use iroh_blobs::Hash;
